@@ -36,7 +36,7 @@ package main
 //
 // Trace format, one group per event:
 //
-//	N <n> <electionTick> <rngseed> <MaxSizePerMsg> <k: initial voters 1..k, 0 = all> <flags: 1 PreVote, 2 CheckQuorum (+ TransferLeader events), 4 learners>
+//	N <n> <electionTick> <rngseed> <MaxSizePerMsg> <k: initial voters 1..k, 0 = all> <flags: 1 PreVote, 2 CheckQuorum, 4 learners, 8 TransferLeader events>
 //	EV <kind> <node> <args>
 //	OUT <msg>                     (0 or more: what the node handed to the network)
 //	ST <node> <term> <vote> <commit> <role F|C|L> <lead> <nlog> (<term> <payload>)* [CFG <nin> ids <nout> ids <autoleave>]
@@ -99,6 +99,7 @@ type cluster struct {
 	ccVoters     int // > 0: membership-change schedule; the initial voters are 1..ccVoters
 	preVote      bool // Config.PreVote (simpv schedules; monitored, not model-validated)
 	checkQuorum  bool // Config.CheckQuorum
+	transfer     bool // the scheduler also calls TransferLeader (monitor-only schedules)
 	learners     bool // flag 4: membership-change schedule that also adds learners (monitored only)
 	snapHeavy    bool // schedule numbers 3000000..3999999: frequent compaction and duplicated deliveries
 	nodes        []*simNode
@@ -255,7 +256,7 @@ func (c *cluster) config(nd *simNode) *raft.Config {
 
 func newCluster(n, electionTick int, rngseed uint64, maxSize uint64, ccVoters int, flags int, w *bufio.Writer) (*cluster, error) {
 	c := &cluster{n: n, electionTick: electionTick, maxSize: maxSize, ccVoters: ccVoters, w: w, nextPayload: 1,
-		preVote: flags&1 != 0, checkQuorum: flags&2 != 0, learners: flags&4 != 0}
+		preVote: flags&1 != 0, checkQuorum: flags&2 != 0, learners: flags&4 != 0, transfer: flags&8 != 0}
 	reseedRaftRand(rngseed)
 	nv := n
 	if ccVoters > 0 && ccVoters < n {
@@ -588,7 +589,7 @@ func (c *cluster) runRandom(r *rng, nevents int) {
 				remove(r.intn(len(c.flight)))
 			}
 		case x < p.wDeliver+p.wDup+p.wDrop+p.wTick:
-			if c.checkQuorum && r.chance(1, 6) {
+			if c.transfer && r.chance(1, 6) {
 				ok = c.exec("TL", r.intn(c.n), 1+r.intn(c.n), nil)
 			} else {
 				ok = c.exec("T", r.intn(c.n), 0, nil)
@@ -736,6 +737,9 @@ func cmdSim(args []string) error {
 			flags = 1
 			if r.chance(1, 2) {
 				flags |= 2
+				if r.chance(1, 3) {
+					flags |= 8 // TransferLeader calls too: outside the model, monitored only
+				}
 			}
 			if r.chance(1, 2) {
 				et = 3 + r.intn(6)
